@@ -236,7 +236,9 @@ var modelProbes = []string{"trim", "simp64", "pip", "strip", "mink"}
 func corrStage(name string, probes []string, quick, thorough int, rule string) {
 	stages[name] = func(ctx *Ctx, cnt func(q, t int) int, replay string) Result {
 		col := NewCollector("", name, rule)
-		parallelFor(ctx, cnt(quick, thorough), true, col, func(o *Oracle, i int) {
+		mctx := *ctx
+		mctx.Oracle = ctx.MOracle // the model executable
+		parallelFor(&mctx, cnt(quick, thorough), true, col, func(o *Oracle, i int) {
 			r := NewRng(ctx.Seed, name, i)
 			which := probes[i%len(probes)]
 			line, got := corrProbe(r, which)
